@@ -445,12 +445,12 @@ func runC20(c *h.Ctx, idx int, events bool) {
 			c.Violate("events/initial-run", fmt.Sprintf("expected exactly one initial run (empty event) per watcher, saw %v", init), cas)
 		}
 	}
+	refTotal, runTotal, forbiddenEver := map[string]int{}, map[string]int{}, map[string]bool{}
 	dead := map[string]bool{}
 	pool := append([]string{}, tree.files...)
 	var history []map[string]interface{}
 	nops := r.Range(3, 6)
 	served := 0
-	refTotal, runTotal, forbiddenEver := map[string]int{}, map[string]int{}, map[string]bool{}
 	// structured histories (every second case whose subscription allows it)
 	quietOp, loudOp := "", ""
 	switch {
@@ -565,6 +565,14 @@ func runC20(c *h.Ctx, idx int, events bool) {
 				continue
 			}
 			rel, _ := filepath.Rel(real, ev.Name)
+			if (op.Kind == "remove" || op.Kind == "rename") && name != op.Kind {
+				// the attribute change that accompanies an unlink/rename is delivered or dropped depending on
+				// whether the file still exists when the watcher gets to it: not determined
+				for _, tag := range []string{"RUN", "RUN2"} {
+					refTotal[fmt.Sprintf("%s name=[%s] path=[%s]", tag, name, rel)] += 2
+				}
+				continue
+			}
 			for _, wk := range []struct {
 				tag string
 				sel []string
@@ -633,6 +641,32 @@ func runC20(c *h.Ctx, idx int, events bool) {
 				c.Violate("events/ran-for-unobserved-path-or-event", fmt.Sprintf("after %s %s the task ran with %s; the reference observer never saw such an event (this operation: %v)", op.Kind, op.Path, l, evs), cas)
 			} else if runTotal[l] > refTotal[l] {
 				c.Violate("events/ran-more-often-than-events", fmt.Sprintf("after %s %s the task has run %dx with %s for %d events in total", op.Kind, op.Path, runTotal[l], l, refTotal[l]), cas)
+			}
+		}
+		missing := func() bool {
+			seenKeys := map[string]bool{}
+			for _, l := range runLines()[before:] {
+				seenKeys[l] = true
+			}
+			for l := range want {
+				if !seenKeys[l] {
+					return true
+				}
+			}
+			return false
+		}
+		if len(want) > 0 && missing() {
+			// bounded progress: give a loaded machine another 90 s before the event counts as not served
+			if waitFor(90*time.Second, func() bool { return !missing() }) {
+				c.Inconclusive(fmt.Sprintf("a subscribed event after %s %s was served only after more than %d s (machine under load)", op.Kind, op.Path, int(wd.Seconds())))
+			}
+			after = runLines()[before:]
+			for _, l := range after[len(gotCount):] {
+				_ = l
+			}
+			gotCount = map[string]int{}
+			for _, l := range after {
+				gotCount[l]++
 			}
 		}
 		for l := range want {
